@@ -151,7 +151,7 @@ def cmd_check(pid, tier):
         streams += spec["streams"](tier, rng)
         for st in streams:
             sr = core.run_stream(st.name, st.mode, st.cases, st.nontrivial, st.hook, st.exhaustive, st.bounds,
-                                 st.hist_key)
+                                 st.hist_key, st.oracles, st.mode in core.FEED_IMPL_MODES)
             streams_done.append(sr)
             unknown = []
             for (c, a, b, classes, fails) in sr.oracle_fail:
